@@ -9,6 +9,7 @@
 //!                "ops":[["w",len,seed],["x",k,arg],["f"],["p",ms],["pn"],["d"],["z",bool],["r",[[size,sleep_us],..]],
 //!                       ["pf",ms,["a","i","z","s100","p"]]   poll under a fault script for the tty writes (verif-hooks):
 //!                                                            EAGAIN, EINTR, Ok(0), short write of 100 bytes, pass
+//!                       ["drain"]                            poll until the queue is empty
 //!                       ["dp",n]                             frames_drop() if frames_pending() > n (the render loop's policy)
 //!                       ["img",seed,w,h,row,col],["imge"]    execute(Image / ImageErase) through the image handler],
 //!                "end":"drain"|"nodrain", "tee":"/dev/full"}
@@ -90,6 +91,7 @@ pub struct Outcome {
     pub drops_discarding: usize,
     pub drops_partial_front: usize,
     pub image_bytes: usize,
+    pub disposed_pending: usize,
 }
 
 /// what the queue looks like, kept only to count how often a drop found the front chunk partly sent
@@ -163,7 +165,7 @@ fn image(seed: u64, w: usize, h: usize) -> Image {
 /// run one session; `epilogue`: what dispose emits (from the calibration session), None for the calibration itself
 pub fn run_session(sess: &Value, epilogue: Option<&[u8]>) -> Outcome {
     // (epilogue None: take whatever followed the constructor's output)
-    let mut out = Outcome { coq: String::new(), json: sess.clone(), error: None, bytes: 0, short_polls: 0, drops_discarding: 0, drops_partial_front: 0, image_bytes: 0 };
+    let mut out = Outcome { coq: String::new(), json: sess.clone(), error: None, bytes: 0, short_polls: 0, drops_discarding: 0, drops_partial_front: 0, image_bytes: 0, disposed_pending: 0 };
     let mode = sess["mode"].as_str().unwrap_or("dumb").to_string();
     let (master, path) = match open_pty() {
         Ok(x) => x,
@@ -191,6 +193,7 @@ pub fn run_session(sess: &Value, epilogue: Option<&[u8]>) -> Outcome {
     }
     // a twin of the terminal object's image handler: it sees the same draw / erase calls and says what bytes
     // they put into the queue
+    let sixel = format!("{:?}", term.image_handler().kind()) == "Sixel";
     let mut twin: Box<dyn ImageHandler> = match format!("{:?}", term.image_handler().kind()).as_str() {
         "Kitty" => Box::new(KittyImageHandler::new()),
         "Sixel" => Box::new(SixelImageHandler::new(None)),
@@ -265,6 +268,13 @@ pub fn run_session(sess: &Value, epilogue: Option<&[u8]>) -> Outcome {
                 peer.ctl(Ctl::Inject(b"k".to_vec()));
                 do_poll(&mut term, None, &mut sops, &mut jobs, &mut out, &mut shadow);
             }
+            "drain" => {
+                // poll until nothing is queued (the peer is reading)
+                let t0 = Instant::now();
+                while term.frames_pending() > 0 && t0.elapsed() < Duration::from_secs(5) {
+                    do_poll(&mut term, Some(Duration::from_millis(2)), &mut sops, &mut jobs, &mut out, &mut shadow);
+                }
+            }
             "pf" => {
                 let ms = o[1].as_u64().unwrap_or(0);
                 unix_verif::set_write_script(parse_faults(&o[2]));
@@ -276,7 +286,15 @@ pub fn run_session(sess: &Value, epilogue: Option<&[u8]>) -> Outcome {
                 if k == "img" {
                     let img = image(o[1].as_u64().unwrap_or(0), o[2].as_u64().unwrap_or(4) as usize, o[3].as_u64().unwrap_or(4) as usize);
                     let pos = Position { row: o[4].as_u64().unwrap_or(0) as usize, col: o[5].as_u64().unwrap_or(0) as usize };
-                    let _ = twin.draw(&mut b, &img, pos);
+                    if sixel {
+                        // the sixel encoder walks a HashMap (one RandomState per handler object): two handlers
+                        // encode the same picture with the colour layers in different order, so a twin cannot
+                        // predict the bytes.  The terminal's own handler encodes once and caches by image hash:
+                        // its first encoding is the reference, `execute` then queues the cached copy.
+                        let _ = term.image_handler().draw(&mut b, &img, pos);
+                    } else {
+                        let _ = twin.draw(&mut b, &img, pos);
+                    }
                     let _ = term.execute(TerminalCommand::Image(img.clone(), pos));
                     last_img = Some((img, pos));
                 } else if let Some((img, pos)) = last_img.take() {
@@ -331,6 +349,9 @@ pub fn run_session(sess: &Value, epilogue: Option<&[u8]>) -> Outcome {
         }
     }
     peer.ctl(Ctl::Rates(vec![Rate { size: 65536, sleep_us: 0 }]));
+    if term.frames_pending() > 0 {
+        out.disposed_pending += 1;
+    }
     drop(term);
     let mut received = peer.finish();
     if received.len() > 4 * out.bytes + (1 << 16) {
@@ -417,9 +438,20 @@ pub fn gen_session(rng: &mut Rng, budget: usize, idx: usize) -> Value {
     ops.push(json!(["pf", 0, ["i"]]));
     ops.push(json!(["pf", 0, ["z"]]));
     ops.push(json!(["pf", 2, ["s150", "a", "s1", "z", "i", "s40"]]));
+    // by construction (no draw of the generator involved): a poll that returns with output pending, and a drop
+    // that finds the chunk in flight partly sent - one round, a short write of 150 bytes of a fresh 3000 byte frame
+    ops.push(json!(["drain"]));
+    ops.push(json!(["w", 3000, 12]));
+    ops.push(json!(["f"]));
+    ops.push(json!(["pf", 0, ["s150"]]));
     ops.push(json!(["w", 50, 11]));
     ops.push(json!(["f"]));
     ops.push(json!(["d"]));
+    if mode == "xterm" {
+        // the image handler's draw and erase paths, in every run
+        ops.push(json!(["img", 4242, 24, 12, 3, 5]));
+        ops.push(json!(["imge"]));
+    }
     let n = 12 + rng.below(30);
     let mut paused = false;
     for _ in 0..n {
@@ -478,7 +510,14 @@ pub fn gen_session(rng: &mut Rng, budget: usize, idx: usize) -> Value {
         ops.push(json!(["w", 100, 7]));
         ops.push(json!(["z", false]));
     }
-    let end = if rng.chance(1, 3) { "nodrain" } else { "drain" };
+    let draw = rng.chance(1, 3);
+    let end = if draw || idx % 5 == 0 { "nodrain" } else { "drain" };
+    if idx % 5 == 0 {
+        // in every run: the terminal object is released with two chunks queued that no poll has seen
+        ops.push(json!(["w", 40000, 9]));
+        ops.push(json!(["f"]));
+        ops.push(json!(["w", 100, 10]));
+    }
     json!({"mode": mode, "rates": rates_json(&rates), "ops": ops, "end": end})
 }
 
@@ -505,8 +544,6 @@ pub fn main(args: &[String]) -> i32 {
     }
     let _ = std::fs::create_dir_all(&out);
     std::panic::set_hook(Box::new(|_| {}));
-    // the image handler of sessions with an xterm-like TERM (read once per process by the crate)
-    std::env::set_var("SURFNTERM", if seed % 2 == 1 { "image=kitty" } else { "image=sixel" });
     let (count, budget) = if tier == "thorough" { (14, 600_000) } else { (5, 170_000) };
     let sessions: Vec<Value> = match &replay {
         Some(f) => {
@@ -522,6 +559,17 @@ pub fn main(args: &[String]) -> i32 {
             v
         }
     };
+    // the image handler of sessions with an xterm-like TERM (read once per process by the crate): kitty at odd
+    // seeds, sixel at even ones; recorded in the session so that a replay runs with the same handler
+    let mut sessions = sessions;
+    let recorded = sessions.iter().find_map(|s| s["image"].as_str().map(String::from));
+    let kind = recorded.unwrap_or_else(|| String::from(if seed % 2 == 1 { "kitty" } else { "sixel" }));
+    for s in sessions.iter_mut() {
+        if s["mode"].as_str() == Some("xterm") {
+            s["image"] = json!(kind);
+        }
+    }
+    std::env::set_var("SURFNTERM", format!("image={}", kind));
     // calibration: what does an idle session emit (constructor output, then dispose's closing sequence)?
     let mut epilogues: std::collections::HashMap<String, Vec<u8>> = Default::default();
     let mut errors: Vec<String> = vec![];
@@ -543,6 +591,7 @@ pub fn main(args: &[String]) -> i32 {
     let mut drops = 0usize;
     let mut partial_drops = 0usize;
     let mut image_bytes = 0usize;
+    let mut disposed_pending = 0usize;
     let faults0 = unix_verif::write_fault_counts();
     for (i, s) in sessions.iter().enumerate() {
         let mode = s["mode"].as_str().unwrap_or("dumb").to_string();
@@ -558,6 +607,7 @@ pub fn main(args: &[String]) -> i32 {
                 drops_discarding: 0,
                 drops_partial_front: 0,
                 image_bytes: 0,
+                disposed_pending: 0,
             },
         };
         if let Some(e) = &r.error {
@@ -572,6 +622,7 @@ pub fn main(args: &[String]) -> i32 {
         drops += r.drops_discarding;
         partial_drops += r.drops_partial_front;
         image_bytes += r.image_bytes;
+        disposed_pending += r.disposed_pending;
         js.push(r.json);
     }
     writeln!(coq, "\n].\nEval vm_compute in (pty_report 0%N sessions).").unwrap();
@@ -579,7 +630,7 @@ pub fn main(args: &[String]) -> i32 {
     let f1 = unix_verif::write_fault_counts();
     let meta = json!({"sessions": js, "errors": errors, "bytes_written": total,
                       "polls_returning_with_output_pending": short_polls, "drops_discarding_frames": drops,
-                      "drops_with_front_chunk_partly_sent": partial_drops, "image_bytes": image_bytes,
+                      "drops_with_front_chunk_partly_sent": partial_drops, "image_bytes": image_bytes, "sessions_released_with_output_pending": disposed_pending,
                       "forced_short_writes": f1[0] - faults0[0], "forced_zero_byte_writes": f1[1] - faults0[1],
                       "forced_eagain": f1[2] - faults0[2], "forced_eintr": f1[3] - faults0[3]});
     let _ = std::fs::write(format!("{}/sessions.json", out), serde_json::to_string(&meta).unwrap());
